@@ -58,7 +58,9 @@ def n_cases(tier):
 def gen_leaf(rng, allowed):
     act = rng.choice(allowed)
     x = rng.random()
-    if x < 0.65:
+    if x < 0.06:
+        shape = ["u", rng.choice([31, 32, 33, 64, 65, 100])]
+    elif x < 0.65:
         shape = ["u", rng.choice([0, 1, 1, 2, 3, 4, 5, 8, 9])]
     elif x < 0.85:
         shape = ["s", rng.randint(1, 8)]
@@ -70,11 +72,13 @@ def gen_leaf(rng, allowed):
 def gen_node(rng, depth, allowed):
     if depth <= 0 or rng.random() < 0.45:
         return gen_leaf(rng, allowed)
+    many = rng.random() < 0.04
     if rng.random() < 0.5:
-        n = rng.randint(1, 4)
-        keys = rng.sample(["a", "b", "c", "d", "e_", "_f", "g0"], n)
-        return ["dict", [[k, gen_node(rng, depth - 1, allowed)] for k in keys]]
-    return ["list", [gen_node(rng, depth - 1, allowed) for _ in range(rng.randint(1, 3))]]
+        n = rng.randint(1, 4) if not many else rng.randint(17, 40)
+        keys = rng.sample(["a", "b", "c", "d", "e_", "_f", "g0"], n) if not many else [f"k{i}" for i in range(n)]
+        return ["dict", [[k, gen_node(rng, depth - 1 if not many else 0, allowed)] for k in keys]]
+    return ["list", [gen_node(rng, depth - 1 if not many else 0, allowed)
+                     for _ in range(rng.randint(1, 3) if not many else rng.randint(17, 70))]]
 
 
 def gen_case(rng, tier, idx):
